@@ -31,7 +31,9 @@ def upd {α} (f : Nat → α) (k : Nat) (v : α) : Nat → α := fun j => if j =
 inductive Act
   | arrive (a : Nat)          -- a datagram from address a is read from the socket and sent to `packets`
   | loopPkt                   -- the loop takes the next datagram and routes it
-  | loopClose                 -- the loop takes a closure notification
+  | loopDrop                  -- … or drops it: its association was closed while the loop waited for room in its queue
+  | loopClose (k : Nat)       -- the loop takes the closure notification of association k (any queued one: the order in
+                              -- which concurrent closers entered the channel is not observable)
   | read (k : Nat)            -- the handler of association k reads one datagram
   | idle (k : Nat)            -- idle expiry inside Read: notify the loop (the association is not yet closed)
   | close (k : Nat)           -- packetConn.Close(): done (once), drain, notify
@@ -64,14 +66,22 @@ def step (s : St) : Act → Option St
         -- no association, or it is already closed: start a fresh one for this datagram
         some { s with packets := rest, fresh := s.fresh + 1, assoc := upd s.assoc a (some s.fresh),
                       conns := upd s.conns s.fresh (some { addr := a, readq := [p] }) }
-  | .loopClose =>
-    match s.closeCh with
+  | .loopDrop =>
+    match s.packets with
     | [] => none
-    | k :: rest =>
+    | p :: rest =>
+      match s.assoc (s.src p) with
+      | some k => match s.conns k with
+        | some c => if c.done then some { s with packets := rest } else none
+        | none => none
+      | none => none
+  | .loopClose k =>
+    if k ∈ s.closeCh then
       match s.conns k with
-      | some c => if s.assoc c.addr = some k then some { s with closeCh := rest, assoc := upd s.assoc c.addr none }
-                  else some { s with closeCh := rest }
-      | none => some { s with closeCh := rest }
+      | some c => if s.assoc c.addr = some k then some { s with closeCh := s.closeCh.erase k, assoc := upd s.assoc c.addr none }
+                  else some { s with closeCh := s.closeCh.erase k }
+      | none => some { s with closeCh := s.closeCh.erase k }
+    else none
   | .read k =>
     match s.conns k with
     | some c =>
